@@ -453,6 +453,29 @@ func (ex *Exec) newRef(st *State, prefix string) string {
 	return r
 }
 
+// assumeTypeAlloc: every reference inside a value of type t is nil or allocated in the current alloc set.
+func (ex *Exec) assumeTypeAlloc(st *State, pc string, t types.Type, term string) {
+	if ex.pureMode {
+		return
+	}
+	ex.g.allocComp()
+	if f := ex.g.allocFact(t, term, ex.g.get(st, "alloc"), 0); f != "" {
+		ex.g.assume(pc, f)
+	}
+}
+
+// allocAdvance: a callee may have allocated objects: the alloc set grows by an unknown amount.
+func (ex *Exec) allocAdvance(st *State) {
+	if ex.pureMode {
+		return
+	}
+	g := ex.g
+	g.allocComp()
+	before := g.get(st, "alloc")
+	g.havocComp(st, "alloc")
+	g.addFact(fmt.Sprintf("(forall ((r Int)) (! (=> (select %s r) (select %s r)) :pattern ((select %s r))))", before, g.get(st, "alloc"), before))
+}
+
 func (ex *Exec) assumeAllocated(st *State, pc, ref string) {
 	if ex.pureMode {
 		return
